@@ -84,6 +84,8 @@ func prelude() []gen.Stmt {
 	return []gen.Stmt{
 		gen.Def("one", gen.N("1")),
 		gen.Def("str", gen.S(`"s"`)),
+		// a raw string spanning several lines before everything else (every later line number depends on its newlines)
+		gen.Def("raw", gen.S("`r1\nr2\nr3`")),
 		gen.Def("arr", &gen.ArrayLit{Elems: []gen.Expr{gen.N("1"), gen.N("2"), gen.N("3")}}),
 		gen.Def("two", &gen.FuncLit{Params: []string{"p", "q"}, Body: []gen.Stmt{&gen.Return{X: gen.I("p")}}}),
 		gen.Def("res", gen.N("0")),
